@@ -161,6 +161,9 @@ class Model:
             return self.locate(e, 'def', hk)
         s = self.sfx_value(expr['sfx'])
         assert not s.startswith('/'), 'absolute suffix has no meaning defined by the manual'
+        if f == 'lead' and expr['sfx']['q'] == 'hard':
+            # inside hard quotes NO reference is substituted: a literal file name under the default relativity
+            f, s = 'dflt', '@[%s]@/%s' % (expr['sym'], s)
         if f == 'opt' or f == 'dflt':
             rel = expr['rel'] if f == 'opt' else DEFAULT_RELATIVITY[context]
             if rel == 'cd':
@@ -185,7 +188,20 @@ class Model:
             return DEFAULT_RELATIVITY[context]
         if f == 'abs':
             return 'abs'
+        if f == 'lead' and expr['sfx']['q'] == 'hard':  # not a reference at all (hard quotes)
+            return DEFAULT_RELATIVITY[context]
         return self.ultimate_relativity(self.paths[expr['sym']][0], 'def')
+
+
+def _ultimate_base(self, expr):
+    """The expression at the end of the chain (form opt | dflt | abs)."""
+    f = expr['form']
+    if f in ('opt', 'dflt', 'abs') or (f == 'lead' and expr['sfx']['q'] == 'hard'):
+        return expr
+    return _ultimate_base(self, self.paths[expr['sym']][0])
+
+
+Model.ultimate_base = _ultimate_base
 
 
 def absolute(loc, roots):
